@@ -687,11 +687,15 @@ pub fn stack_root(ctx: StackCtx, shared: Rc<NodeShared>) -> RootFut {
                         .map_err(|_| ())
                         .unwrap();
                     fabric.groups_mut().key_set_add(ks).unwrap();
-                    fabric
-                        .groups_mut()
-                        .key_map_add(GroupKeyMapping { group_id: gf.group_id, group_key_set_id: 1 })
-                        .unwrap();
-                    fabric.groups_mut().add(1, gf.group_id, "g").unwrap();
+                    // Four groups which differ in one or two bits of their id share the key set: a
+                    // group id altered on the path then names another group this node is a member of
+                    for gid in [gf.group_id & !3, (gf.group_id & !3) | 1, (gf.group_id & !3) | 2, (gf.group_id & !3) | 3] {
+                        fabric
+                            .groups_mut()
+                            .key_map_add(GroupKeyMapping { group_id: gid, group_key_set_id: 1 })
+                            .unwrap();
+                        fabric.groups_mut().add(1, gid, "g").unwrap();
+                    }
                 }
             }
         });
